@@ -1449,7 +1449,7 @@ def rand_grammar(rnd, gid, tier):
     P = "verif_common::oracles::"
     nrules = rnd.randint(2, 4)
     names = ["S"] + ["R%d" % i for i in range(1, nrules)]
-    fixed = ["T", "C", "D", "O", "A", "B"]          # always available helper rules (defined below)
+    fixed = ["T", "C", "D", "O", "A", "B", "TS", "L"]   # always available helper rules (defined below)
     fields = ["x", "y", "z"]
     lits = ["a", "b", "ab", "c", "ba"]
 
@@ -1482,7 +1482,10 @@ def rand_grammar(rnd, gid, tier):
         if k < 0.32:
             return Seq(*[expr(i, depth - 1, allow_field) for _ in range(rnd.randint(2, 3))])
         if k < 0.56:
-            return Choice(*[expr(i, depth - 1, allow_field) for _ in range(rnd.randint(2, 3))])
+            alts = [expr(i, depth - 1, allow_field) for _ in range(rnd.randint(2, 3))]
+            if rnd.random() < 0.2:
+                alts.append(Seq())                 # an empty last alternative: the choice is nullable
+            return Choice(*alts)
         if k < 0.68:
             return Opt(expr(i, depth - 1, allow_field))
         if k < 0.84:
@@ -1502,7 +1505,15 @@ def rand_grammar(rnd, gid, tier):
         body = expr(i, depth, True)
         rules.append(Rule(n, body, export=(i == 0), position=rnd.random() < 0.5, no_skip_ws=rnd.random() < 0.5,
                           memoize=(i > 0 and rnd.random() < 0.4)))
+    even = {"o": "str_even", "path": P + "chk_str_even", "name": P + "chk_str_even"}
+    # a @string rule with a random field-less body that starts by consuming (optional tails, lookaheads, choices inside)
+    ts_body = Seq(consuming_atom(len(names), False), expr(len(names), 2, False))
+    ts_checked = rnd.random() < 0.25          # (the library check takes a plain String: not with @position)
     rules += [
+        Rule("TS", ts_body, string=True, no_skip_ws=rnd.random() < 0.5, position=(not ts_checked and rnd.random() < 0.3),
+             memoize=rnd.random() < 0.3, checks=([even] if ts_checked else [])),
+        Rule("L", Choice(Seq(Call("L", "l", boxed=True), Lit("c"), Call("A", "r")), Call("A", "r")), leftrec=True,
+             no_skip_ws=rnd.random() < 0.5, position=rnd.random() < 0.3),
         Rule("T", Clo(Choice(Lit("a"), Lit("b")), plus=True), string=True, no_skip_ws=rnd.random() < 0.7, position=rnd.random() < 0.3),
         CharRule("C", [("lit", "c"), ("range", "a", "b")]),
         ExternRule("D", {"o": "digits", "path": P + "ext_digits", "nullable": False}),
